@@ -878,8 +878,61 @@ def p_flow(b):
         b.bind("%s_in" % t, ("inst", ci.name), True, ["with"])
 
 
+def p_dataflow(b):
+    """An imperative function: locals that are assigned, conditionally or self-referentially re-assigned (if / loop / try /
+    augmented) and read again; called with several arguments so that every branch runs."""
+    b.prog.features.update(["functions", "dataflow-function"])
+    fn, n = b.fresh("fun"), b.fresh("par")
+    a, c, d = b.fresh("loc"), b.fresh("loc"), b.fresh("loc")
+    body = ["%s = %s + %s" % (a, n, b.draw(st.sampled_from(["1", "2", "10"]))),
+            b.draw(st.sampled_from(["%s = %s * 2" % (c, a), "%s = %s - 1" % (c, n)]))]
+    i = b.fresh("it")
+    variants = {
+        "cond": ["if %s > 3:" % n, "    %s = 0" % a],
+        "self": ["%s = %s + %s" % (a, a, c)],
+        "loop": ["for %s in range(%s):" % (i, n), "    %s = %s + %s" % (a, a, i)],
+        "try": ["try:", "    %s = %s // %s" % (a, a, n), "except ZeroDivisionError:", "    %s = -1" % c],
+        "while": ["while %s > 10:" % a, "    %s = %s - 7" % (a, a)],
+        "aug": ["%s += %s" % (a, c)],
+        "cond_other": ["if %s == 0:" % n, "    %s = %s" % (c, a)],
+    }
+    for k in b.draw(st.lists(st.sampled_from(sorted(variants)), min_size=1, max_size=3, unique=True)):
+        body += variants[k]
+        b.prog.features.add("dataflow:" + k)
+    body += ["%s = %s + %s" % (d, a, c), b.draw(st.sampled_from(["return %s" % d, "return %s + %s" % (d, a)]))]
+    b.emit("def %s(%s):" % (fn, n), *["    " + l for l in body])
+    for arg in b.draw(st.lists(st.sampled_from(["0", "1", "4", "10"]), min_size=2, max_size=3, unique=True)):
+        b.bind("%s(%s)" % (fn, arg), ("int",), True, ["function-call", "dataflow"])
+
+
+def p_varlen(b):
+    """A function that returns sequences of different lengths on different paths; the result is iterated and unpacked
+    (positions that exist only in the longer alternative).  The flag is computed, so that
+    neither path can be ruled out statically."""
+    b.prog.features.update(["functions", "varying-length-returns"])
+    fn, flag = b.fresh("fun"), b.fresh("par")
+    kinds = b.draw(st.permutations(["int", "str", "float"]))
+    elems = [LIT[k][0] for k in kinds]
+    br = b.draw(st.sampled_from(["[", "("]))
+    close = {"[": "]", "(": ",)"}[br]
+    short = b.draw(st.sampled_from([br + elems[0] + close, "[]" if br == "[" else "()"]))
+    b.emit("def %s(%s):" % (fn, flag), "    if %s:" % flag, "        return %s" % short,
+           "    return %s%s%s" % (br, ", ".join(elems), close))
+    it = b.fresh("it")
+    b.emit("for %s in %s(len('ab') == 3):" % (it, fn), "    pass")
+    b.bind(it, (kinds[2],), False, ["for", "varlen"])
+    u1, u2, u3 = b.fresh("ua"), b.fresh("ub"), b.fresh("uc")
+    b.emit("%s, %s, %s = %s(len('ab') == 3)" % (u1, u2, u3, fn))
+    b.bind(u2, (kinds[1],), False, ["unpack", "varlen"])
+    b.bind(u3, (kinds[2],), False, ["unpack", "varlen"])
+    if b.draw(st.booleans()):
+        b.bind("[%s for %s in %s(len('ab') == 3)][-1]" % (it, it, fn), (kinds[2],), False, ["comprehension", "varlen"])
+    else:
+        b.bind("list(%s(len('ab') == 3))[2]" % fn, (kinds[2],), False, ["subscript", "varlen"])
+
+
 PRODUCTIONS = [p_literals, p_arith, p_unpack, p_function, p_function, p_function, p_lambda, p_class, p_class, p_use_class,
-               p_decorator, p_generator, p_comprehension, p_flow, p_flow, p_multi_inherit, p_override, p_duck]
+               p_decorator, p_generator, p_comprehension, p_flow, p_flow, p_multi_inherit, p_override, p_duck, p_dataflow, p_varlen]
 
 
 @st.composite
